@@ -14,6 +14,7 @@ from harness.bootstrap import load_chi
 from harness.core import Family
 from harness import gen_pop as GP
 from harness.oracle import densities as D
+from harness.oracle.hierarchy import Hierarchy
 
 chi = load_chi()
 
@@ -502,10 +503,101 @@ def sample_case(ctx, rng, idx):
                            'case': feats}, feats)
 
 
+def composite_names_case(ctx, rng, idx):
+    """covariate columns of a composite (optionally behind a reduced
+    wrapper) are named through the composite: the names read back, and a
+    beta whose name ends with a covariate name multiplies exactly that
+    column (decided by moving one column and one beta at a time)"""
+    n_ids = int(rng.integers(1, 4))
+    k = int(rng.integers(2, 4))
+    leaves = []
+    for _ in range(k):
+        kind = 'GL'[int(rng.integers(2))]
+        n_dim = int(rng.integers(1, 3))
+        n_cov = int(rng.integers(0, 3)) if len(leaves) else \
+            int(rng.integers(1, 3))
+        sel = None
+        if n_cov and rng.random() < 0.5:
+            sel = [[0, int(rng.integers(n_dim))]]
+        leaves.append(GP.make_leaf(kind, n_dim, True, n_cov, sel, n_ids))
+    rng.shuffle(leaves)
+    reduced = rng.random() < 0.4
+    codes = [GP.leaf_code(l) for l in leaves]
+    feats = {'mode': 'composite_names', 'leaves': codes, 'n_ids': n_ids,
+             'reduced': reduced}
+    ctx.case(('composite_names', '+'.join(codes), reduced), True,
+             sample=feats)
+    try:
+        model = GP.build_chi(leaves, n_ids, force_composed=True)
+        if reduced:
+            model = chi.ReducedPopulationModel(model)
+        n_cov = model.n_covariates()
+        pool = ['age', 'weight', 'sex', 'dose group', 'height', 'bmi']
+        given = [pool[i] for i in rng.permutation(len(pool))[:n_cov]]
+        model.set_covariate_names(given)
+        back = model.get_covariate_names()
+        names = model.get_parameter_names()
+    except Exception as e:      # noqa
+        ctx.violation_exc('evaluation_raises', e,
+                          {'case': feats, 'call': 'set_covariate_names'},
+                          feats)
+        return
+    ctx.count('composite_covariate_names_set')
+    if list(back) != given:
+        ctx.violation('covariate_names_identify_columns',
+                      'composite_covariate_names_not_kept',
+                      {'given': given, 'read back': back, 'case': feats},
+                      feats)
+        return
+    h = Hierarchy(leaves, n_ids)
+    _, x, cov = GP.hierarchy_vector(rng, leaves, n_ids)
+    top = np.array(x[h.n_bottom:], dtype=float)
+    obs = rng.uniform(0.4, 0.9, size=(n_ids, h.n_dim))
+    betas = [i for i, nm in enumerate(names)
+             if any(nm.endswith(' ' + c) for c in given)]
+    want_betas = sum(len(l.cov['sel']) * l.cov['n_cov']
+                     for l in leaves if l.cov)
+    if len(betas) != want_betas:
+        ctx.violation('covariate_names_identify_columns',
+                      'beta_names_without_covariate_name',
+                      {'names': names, 'covariate names': given,
+                       'expected betas': want_betas}, feats)
+        return
+    for i in betas[:8]:
+        t = np.array(top)
+        t[betas] = 0.0
+        t[i] = 0.3
+        named = [j for j, c in enumerate(given)
+                 if names[i].endswith(' ' + c)]
+        try:
+            v0 = model.compute_log_likelihood(t, obs, covariates=cov)
+            moved = []
+            for j in range(n_cov):
+                c1 = np.array(cov)
+                c1[:, j] += 0.5
+                v1 = model.compute_log_likelihood(t, obs, covariates=c1)
+                if v1 != v0:
+                    moved.append(j)
+        except Exception as e:      # noqa
+            ctx.violation_exc('evaluation_raises', e, {'case': feats},
+                              feats)
+            return
+        ctx.count('beta_names_checked')
+        if moved != named:
+            ctx.violation('covariate_names_identify_columns',
+                          'beta_name_vs_column',
+                          {'beta': names[i], 'columns named': named,
+                           'columns that act': moved, 'names': names,
+                           'covariate names': given, 'case': feats}, feats)
+            return
+
+
 FAMILIES = [
     Family('random', random_case, quick=2100, thorough=42000),
     Family('exhaustive', exhaustive_case, quick=len(_SELS),
            thorough=len(_SELS) * 4),
     Family('out_of_range', out_of_range_case, quick=60, thorough=300),
     Family('sample', sample_case, quick=80, thorough=600),
+    Family('composite_names', composite_names_case, quick=150,
+           thorough=1500),
 ]
